@@ -283,6 +283,13 @@ func renderD(v ssa.Value, d int) string {
 		return renderD(x.X, d-1) + "[" + renderD(x.Index, d-1) + "]"
 	case *ssa.UnOp:
 		if x.Op == token.MUL {
+			// a parameter spilled to a local because a closure captures it:
+			// `t0 = new *T (p); *t0 = p` — every `*t0` is that parameter
+			if al, ok := x.X.(*ssa.Alloc); ok {
+				if p := spilledParam(al); p != nil {
+					return renderD(p, d-1)
+				}
+			}
 			s := renderD(x.X, d-1)
 			if strings.HasPrefix(s, "&") {
 				return s[1:]
@@ -1288,6 +1295,55 @@ func unspill(ret *ssa.Return) []ssa.Value {
 				val = st.Val
 			}
 		}
+		if val == nil {
+			// named result assigned in an earlier block: the unique store that
+			// dominates the load with no other store to the slot in between
+			var stores []*ssa.Store
+			for _, r := range *al.Referrers() {
+				if st, ok := r.(*ssa.Store); ok && st.Addr == ssa.Value(al) {
+					stores = append(stores, st)
+				}
+			}
+			fn := ret.Parent()
+			for _, s := range stores {
+				if !dominatesInstr(s, ld) {
+					continue
+				}
+				clean := true
+				for _, o := range stores {
+					if o == s {
+						continue
+					}
+					_, r1 := pathAvoiding(fn, s, func(in ssa.Instruction) bool { return in == ssa.Instruction(o) }, func(in ssa.Instruction) bool { return in == ssa.Instruction(ld) })
+					if r1 {
+						_, r2 := pathAvoiding(fn, o, func(in ssa.Instruction) bool { return in == ssa.Instruction(ld) }, nil)
+						if r2 {
+							clean = false
+						}
+					}
+				}
+				if clean {
+					val = s.Val
+				}
+			}
+		}
+		// `return n, obj, err` with named results first copies the slots:
+		// t = *obj; …; *obj = t — follow such copies to the defining store
+		for k := 0; k < 3 && val != nil; k++ {
+			l2, ok := val.(*ssa.UnOp)
+			if !ok || l2.Op != token.MUL {
+				break
+			}
+			a2, ok := l2.X.(*ssa.Alloc)
+			if !ok {
+				break
+			}
+			v2 := definingStore(ret.Parent(), a2, l2)
+			if v2 == nil {
+				break
+			}
+			val = v2
+		}
 		if val != nil {
 			out[i] = val
 			any = true
@@ -1297,6 +1353,51 @@ func unspill(ret *ssa.Return) []ssa.Value {
 		return nil
 	}
 	return out
+}
+
+// definingStore: the value of the unique store to slot that reaches load ld
+// (same block before it, or dominating with no other store in between).
+func definingStore(fn *ssa.Function, al *ssa.Alloc, ld ssa.Instruction) ssa.Value {
+	var val ssa.Value
+	for _, in := range ld.Block().Instrs {
+		if in == ld {
+			break
+		}
+		if st, ok := in.(*ssa.Store); ok && st.Addr == ssa.Value(al) {
+			val = st.Val
+		}
+	}
+	if val != nil {
+		return val
+	}
+	var stores []*ssa.Store
+	for _, r := range *al.Referrers() {
+		if st, ok := r.(*ssa.Store); ok && st.Addr == ssa.Value(al) {
+			stores = append(stores, st)
+		}
+	}
+	for _, s := range stores {
+		if !dominatesInstr(s, ld) {
+			continue
+		}
+		clean := true
+		for _, o := range stores {
+			if o == s {
+				continue
+			}
+			_, r1 := pathAvoiding(fn, s, func(in ssa.Instruction) bool { return in == ssa.Instruction(o) }, func(in ssa.Instruction) bool { return in == ld })
+			if r1 {
+				_, r2 := pathAvoiding(fn, o, func(in ssa.Instruction) bool { return in == ld }, nil)
+				if r2 {
+					clean = false
+				}
+			}
+		}
+		if clean {
+			return s.Val
+		}
+	}
+	return nil
 }
 
 // ------------------------------------------------- path-sensitive exit sites
